@@ -3,9 +3,11 @@
 use vstd::prelude::*;
 use vstd::string::*;
 use std::sync::Arc;
+use vstd::std_specs::cmp::PartialEqSpec;
 verus! {
 //@include prelude/core.rs
 //@include prelude/strings.rs
+//@include prelude/arc.rs
 //@include inc/codec_common.rs
 //@include inc/raw_header.rs
 //@item! stun_rs :: mod attributes > struct AttributeType
